@@ -299,10 +299,27 @@ func sizeAgreementRule(P *Program, R *Report) {
 	// the m randomiser is the builder's LmCommit randomiser (C07.a) and LmCommit = Lm+Lstatzk+Lh
 	if md := mustFunc(P, R, rule, "gabikeys.MakeDerivedParameters"); md != nil {
 		got := map[string]string{}
+		gotA := map[string]Affine{}
 		for f, st := range litFieldStores(md, "new:gabikeys.DerivedParameters") {
 			if a, ok := affineOf(st.Val); ok {
-				got[f] = a.String()
+				gotA[f] = a
 			}
+		}
+		// a derived length defined through another derived length (LvCommit = Lv + ...) is expanded
+		for round := 0; round < 3; round++ {
+			for f, a := range gotA {
+				b := a.clone()
+				for sym, k := range a.S {
+					if def, isDerived := gotA[sym]; isDerived && sym != f {
+						delete(b.S, sym)
+						b = b.add(def.scale(k))
+					}
+				}
+				gotA[f] = b
+			}
+		}
+		for f, a := range gotA {
+			got[f] = a.String()
 		}
 		spec := map[string]string{
 			"Le": "Lstatzk+Lh+Lm+5", "LeCommit": "LePrime+Lstatzk+Lh", "LmCommit": "Lm+Lstatzk+Lh",
